@@ -44,6 +44,10 @@ def check_bytes(case):
         cls.append("nt:all-zero")
     if case.get("kind") == "radix":
         cls.append("nt:radix-boundary")
+    if case.get("kind") == "nested":
+        cls.append("nt:payload-is-base58-text")
+    if case.get("kind") == "text":
+        cls.append("nt:payload-reads-as-text")
     if len(data) >= 96:
         cls.append("nt:data>=96-bytes")  # encodings of more than 128 characters
     if not cls:
@@ -103,7 +107,16 @@ def check_string(case):
 
 @st.composite
 def bytes_cases(draw):
-    kind = draw(st.sampled_from(["zeros+body", "allzero", "allff", "radix", "random", "random"]))
+    kind = draw(st.sampled_from(["zeros+body", "allzero", "allff", "radix", "random", "random", "nested", "text"]))
+    if kind == "nested":
+        # a payload that is itself Base58 / Base58Check text (an address, a WIF string, an encoding of an encoding)
+        inner = draw(st.one_of(st.binary(max_size=40), st.just(b""), st.just(b"hello world"), st.binary(min_size=21, max_size=21)))
+        data = ref.check_encode(inner) if draw(st.booleans()) else ref.encode(inner)
+        if draw(st.integers(0, 3)) == 0:
+            data = ref.check_encode(data)
+        return {"kind": kind, "data": hx(data[:128])}
+    if kind == "text":
+        return {"kind": kind, "data": hx(draw(gen.lookalike_bytes()))}
     if kind == "zeros+body":
         z = draw(st.integers(0, 40))
         body = draw(gen.sized_binary(88))
@@ -167,7 +180,7 @@ def _targets(tier):
             check_bytes,
             strategy=lambda tier: bytes_cases(),
             budget={"quick": 20000, "thorough": 400000},
-            required=["nt:leading-zeros", "nt:empty", "nt:all-zero", "nt:radix-boundary", "nt:data>=96-bytes"],
+            required=["nt:leading-zeros", "nt:empty", "nt:all-zero", "nt:radix-boundary", "nt:data>=96-bytes", "nt:payload-is-base58-text", "nt:payload-reads-as-text"],
         ),
         Target(
             "string-accept",
